@@ -200,9 +200,9 @@ func runC03(c *Check) {
 				msg := v.Args[1].String()
 				okMsg := false
 				if si.kind == "header" {
-					okMsg = strings.Contains(msg, is+".Header")
+					okMsg = strings.Contains(msg, is+".Header") || p.DeepContains(v.Args[1], func(t *Term) bool { return t.Op == "field" && t.String() == is+".Header" }, 2)
 				} else {
-					okMsg = strings.Contains(msg, "MarshalBinary("+is+".Data)")
+					okMsg = strings.Contains(msg, "MarshalBinary("+is+".Data)") || p.DeepContains(v.Args[1], func(t *Term) bool { return strings.HasSuffix(t.Name, "MarshalBinary") && len(t.Args) > 0 && t.Args[0].String() == is+".Data" }, 2)
 				}
 				if okKey && okSig && okMsg {
 					verified = true
@@ -308,7 +308,7 @@ func ruleP2PValidateHook(c *Check, p *Prog) {
 	key := recv + ".Signer.PubKey"
 	verified := false
 	for _, v := range verifyFacts(facts) {
-		if len(v.Args) >= 3 && v.Args[0].String() == key && v.Args[2].String() == recv+".Signature" && strings.Contains(v.Args[1].String(), recv+".Header") {
+		if len(v.Args) >= 3 && v.Args[0].String() == key && v.Args[2].String() == recv+".Signature" && (strings.Contains(v.Args[1].String(), recv+".Header") || p.DeepContains(v.Args[1], func(t *Term) bool { return t.Op == "field" && t.String() == recv+".Header" }, 2)) {
 			verified = true
 		}
 	}
